@@ -834,9 +834,15 @@ class Engine:
                     path, step, 0)
                 deferred_updates.append((update, store))
 
+            # Collect every result before applying any update: an update
+            # may delete (and so end) a parallel process whose own update
+            # belongs to this layer.
+            fetched_updates = [
+                (update.get(), store) for update, store in deferred_updates]
+
             view_expire = False
-            for update, store in deferred_updates:
-                view_expire_update = self.apply_update(update.get(), store)
+            for fetched, store in fetched_updates:
+                view_expire_update = self.apply_update(fetched, store)
                 view_expire = view_expire or view_expire_update
 
             if view_expire:
@@ -853,10 +859,15 @@ class Engine:
                 ``state`` is the store from whose perspective the update
                 was generated.
         """
+        # Collect every result before applying any update: an update may
+        # delete (and so end) a parallel process whose own update is part
+        # of this batch.
+        fetched_updates = [
+            (update.get(), state) for update, state in update_tuples]
+
         view_expire = False
-        for update_tuple in update_tuples:
-            update, state = update_tuple
-            view_expire_update = self.apply_update(update.get(), state)
+        for fetched, state in fetched_updates:
+            view_expire_update = self.apply_update(fetched, state)
             view_expire = view_expire or view_expire_update
 
         if view_expire:
